@@ -38,8 +38,20 @@ pub fn apply_oracle(p: FileProp, d: &[u8], m: &Movie, cfg: &Cfg, e: &Expect) -> 
         FileProp::C01 => fileck::c01(d, m, cfg, e),
         FileProp::C02 => fileck::c02_progressive(m, cfg),
         FileProp::C03 => fileck::c03(m, cfg, e),
-        FileProp::C15 => fileck::c15(m, cfg, e),
+        FileProp::C15 => fileck::c15(d, m, cfg, e),
     }
+}
+
+/// A box path taken from a damaged file contains "types" read from arbitrary bytes; they would make
+/// the signature depend on the payload. Components that are not plain box names become `*`.
+pub fn stable_sig(sig: &str) -> String {
+    sig.split('/')
+        .map(|c| {
+            let plain = !c.is_empty() && c.chars().all(|ch| ch.is_ascii_alphanumeric() || "<>=-_[]. ".contains(ch)) && !c.contains("  ");
+            if plain || c.is_empty() { c.to_string() } else { "*".to_string() }
+        })
+        .collect::<Vec<_>>()
+        .join("/")
 }
 
 /// Execute one accepted-only history, finish it, and judge the file. Returns false when the
@@ -80,8 +92,8 @@ pub fn judge_history(p: FileProp, cfg: &Cfg, ops: &[Op], order: (u64, u64), t: &
     }
     for (sig, detail) in issues {
         let layout = if cfg.audio.is_some() { "av" } else { "v" };
-        let full = format!("{p:?}/{layout}/{sig}");
-        t.violation(&full, order, || format!("{} | {} | {}", cfg.short(), brief_ops(ops), detail), || case_json(cfg, ops));
+        let full = format!("{p:?}/{layout}/{}", stable_sig(&sig));
+        t.violation(&full, order, || format!("{} | {} | {} [{sig}]", cfg.short(), brief_ops(ops), detail), || case_json(cfg, ops));
     }
     t.sample(3, || json!({"cfg": cfg.short(), "history": brief_ops(ops), "results": ex.results.iter().map(|r| r.brief()).collect::<Vec<_>>(), "file_bytes": ex.bytes.len()}));
 }
@@ -385,7 +397,7 @@ pub fn scaling_histories(max_video: usize) -> Vec<(Cfg, Vec<Op>, String)> {
     let unit = 0.02f64;
     for nv in 1..=max_video {
         // audio cadence relative to video: same ticks, twice as dense, half as dense
-        for (cad, name) in [((1usize, 1usize), "1:1"), ((1, 2), "2 audio per video"), ((2, 1), "1 audio per 2 video")] {
+        for (cad, name) in [((1usize, 1usize), "1:1"), ((1, 2), "2 audio per video"), ((2, 1), "1 audio per 2 video"), ((1, 1), "audio pairs on one tick")] {
             for shape in 0..3usize {
                 let (codec, ac, fs) = match (nv + shape) % 4 {
                     0 => (VCodec::H264, ACodec::AacLc, true),
@@ -398,7 +410,12 @@ pub fn scaling_histories(max_video: usize) -> Vec<(Cfg, Vec<Op>, String)> {
                 let vts: Vec<f64> = (0..nv).map(|i| (i * 2 * cad.0) as f64 * unit).collect();
                 let na = nv * 2 * cad.0 / (2 * cad.0 / cad.1.max(1)).max(1);
                 let astep = (2 * cad.0) as f64 / cad.1 as f64;
-                let ats: Vec<f64> = (0..na.min(3 * nv)).map(|j| (j as f64 * astep).round() * unit).filter(|&a| a <= *vts.last().unwrap() + unit).collect();
+                let mut ats: Vec<f64> = (0..na.min(3 * nv)).map(|j| (j as f64 * astep).round() * unit).filter(|&a| a <= *vts.last().unwrap() + unit).collect();
+                if name == "audio pairs on one tick" {
+                    // audio timestamps need only be non-decreasing: every tick carries two
+                    // frames (of different sizes, see a_op)
+                    ats = ats.iter().flat_map(|&a| [a, a]).collect();
+                }
                 let v_op = |i: usize| {
                     let (d, _) = video_frame(codec, i == 0 || i % 7 == 0, i == 0, i as u32 + 1, 4 + i % 5);
                     Op::WV { pts: T(vts[i]), data: Bytes::new(d), key: i == 0 || i % 7 == 0 }
